@@ -71,6 +71,46 @@ Proof.
            (sx (initQ M b x0)) xs Qcle Qc_le_add_nonneg Hp b x0 m res h l1 s s' l2 eq_refl Hr Hh Hb).
 Qed.
 
+
+(* ---- Krylov optimality and termination within n steps for the executed instance ---- *)
+Definition spanQ (n : nat) := span Qc (Q2Qc 0) Qcplus Qcmult n.
+Definition kryQ (M : list (list Qc)) := kry Qc (mvQ M).
+
+Lemma initQ_r_len n M b x0 : length M = n -> length b = n -> length (sr (initQ M b x0)) = n.
+Proof.
+  intros HM Hb. unfold initQ, cg_init. cbn [sr].
+  rewrite (length_vsub Qc _ _ _ _ _ _ _ _ Qcft). unfold mvQ. rewrite (matvec_length Qc), HM, Hb. apply Nat.max_id.
+Qed.
+
+Theorem cgQ_optimal_krylov n M tol xs b x0 m res h h1 s h2 : length M = n -> symQ M -> psdQ M ->
+  length b = n -> length (sx (initQ M b x0)) = n ->
+  runQ M tol b x0 m = (res, h) -> h = h1 ++ s :: h2 -> mvQ M xs = b ->
+  (exists d, spanQ n (kryQ M (sr (initQ M b x0)) (length (h1 ++ [s]))) d /\ sx s = vaddQ (sx (initQ M b x0)) d) /\
+  forall d, spanQ n (kryQ M (sr (initQ M b x0)) (length (h1 ++ [s]))) d ->
+    (errHQ M xs (sx s) <= errHQ M xs (vaddQ (sx (initQ M b x0)) d))%Qc.
+Proof.
+  intros HM Hs Hp Hb Hx Hr Hh Hxs.
+  assert (Hl : forall u, length (mvQ M u) = n) by (intros u; unfold mvQ; rewrite (matvec_length Qc); exact HM).
+  pose proof (initQ_r_len n M b x0 HM Hb) as Hr0. split.
+  - exact (cg_iterate_in_krylov Qc _ _ _ _ _ _ _ _ Qcft Qc_eq_bool Qc_ltb Qc_eq_bool_spec (mvQ M) (mvQ_add M) (mvQ_scale M) tol n Hl Hs
+             _ _ Hr0 b x0 m res h eq_refl Hx Hb eq_refl Hr h1 s h2 Hh).
+  - exact (cg_optimal_krylov Qc _ _ _ _ _ _ _ _ Qcft Qc_eq_bool Qc_ltb Qc_eq_bool_spec (mvQ M) (mvQ_add M) (mvQ_scale M) tol n Hl Hs
+             _ xs Qcle Qc_le_add_nonneg Hp _ Hr0 b x0 m res h h1 s h2 eq_refl Hx Hb eq_refl Hr Hh Hxs).
+Qed.
+
+Theorem cgQ_within_n n M b x0 m : length M = n -> symQ M -> pdQ n M -> length b = n -> (n <= m)%nat ->
+  exists y h, runQ M (Q2Qc 0) b x0 m = (Some y, h) /\ dotQ (vsubQ b (mvQ M y)) (vsubQ b (mvQ M y)) = Q2Qc 0.
+Proof.
+  intros HM Hs Hpd Hb Hnm.
+  assert (Hl : forall u, length (mvQ M u) = n) by (intros u; unfold mvQ; rewrite (matvec_length Qc); exact HM).
+  pose proof (cg_run_finite Qc _ _ _ _ _ _ _ _ Qcft Qc_eq_bool Qc_ltb Qc_eq_bool_spec (mvQ M) (Q2Qc 0) n Hl (pdQ_definite n M Hpd) b x0 m Hb) as Hfin.
+  unfold runQ. destruct (cg_run Qc (Q2Qc 0) Qcplus Qcmult Qcminus Qcopp Qcdiv Qc_eq_bool Qc_ltb (mvQ M) (Q2Qc 0) b x0 m) as [[y|] h] eqn:Er;
+    [|cbn in Hfin; congruence].
+  exists y, h. split; [reflexivity|].
+  exact (cg_exact_within_n Qc _ _ _ _ _ _ _ _ Qcft Qc_eq_bool Qc_ltb Qc_eq_bool_spec (mvQ M) (mvQ_add M) (mvQ_scale M) (Q2Qc 0) n Hl Hs
+           _ _ (initQ_r_len n M b x0 HM Hb) b x0 m y h eq_refl Hnm Hb eq_refl Er).
+Qed.
+
 (* the reals are an instance of the general theorems as well *)
 From Coq Require Import Reals.
 Definition Reqb (a b : R) : bool := if Req_EM_T a b then true else false.
